@@ -14,11 +14,11 @@ CHECKS = {
          "TLA+ action property + TLC trace validation of real-code traces"),
  "C03": ("model_checking", "Local-respect unwinding condition Ok_C03 (a step changes and reaches only the sessions the actor is in) on every transition of the model (2 sessions, coinciding ids, id reuse) and on every step of multi-session real executions. The state invariant isolation rests on (a member's session is the one registered under its id) is also evaluated after the id-reuse blocks of the schedules stage.", "5 C03",
          "TLA+ unwinding conditions + TLC trace validation"),
- "C04": ("model_checking", "Decision table of realtime.go/modules as Process sub-actions; Ok_C04 compares the logged response with Step(pre, request) and requires refusals to leave the logged state unchanged; exhaustive over families core/comps/mods/custom and validated on generated + seeded histories covering every request kind.", "5 C04",
+ "C04": ("model_checking", "Decision table of realtime.go/modules as Process sub-actions; Ok_C04 compares the logged response with Step(pre, request) and requires refusals to leave the logged state unchanged; exhaustive over families core/comps/mods/custom and validated on generated + seeded histories covering every request kind; receipt requests are judged on the submissions of the receipt scenarios (ReceiptTrace: exactly one answer, the one Receipt.tla defines).", "5 C04",
          "TLA+ decision table + TLC trace validation"),
  "C05": ("model_checking", "Ok_C05 over logged consecutive states: any disappearance, pose change or asset change of an entity is attributed to the step's actor and must be its owner; issued participant ids are fresh (ghost).", "5 C05",
          "TLA+ action property over logged states + TLC trace validation"),
- "C06": ("model_checking", "Ok_C06: on every departure (disconnect, handler error, switch) the logged session equals LeaveOf(pre) of the specification in entities, components, actions, assets, subscriptions, members, and the remaining members get exactly the specified relays; NoDangling on every state.", "5 C06",
+ "C06": ("model_checking", "Ok_C06: on every departure (disconnect, handler error, switch) the logged session equals LeaveOf(pre) of the specification (the leaver's entities = those whose recorded owner it is) in entities, components, actions, assets, subscriptions, members, and the remaining members get exactly the specified relays; NoDangling on every state.", "5 C06",
          "TLA+ LeaveOf + TLC trace validation"),
  "C07": ("model_checking", "Sequential clauses: registry = non-empty sessions, gauge = |registry|, join success => member of the session found under the returned id, reused id => fresh uuid and empty record, no ended session keeps a running frame worker (virtual ticker). Schedules clause: see C07 notes in DESIGN.md. Lock grain: RelayConc.tla (every Lock/RLock call of the join/leave/entity/vikja paths is a program location) explored exhaustively by TLC; behaviours generated from it are forced step by step on the real handlers (cooperative scheduler, harness l1m) and random schedules of the real handlers are validated by RelayConcTrace (every decision a step of the specification, state and outputs equal at the end of every phase; L_* invariants judge the logged execution). Frame workers: sessions created and ended under four scheduling patterns leave no goroutine inside StartDispatchFrames.", "5 C07",
          "TLA+ invariants + TLC trace validation"),
@@ -32,7 +32,7 @@ CHECKS = {
          "TLA+ recipient function + TLC trace validation"),
  "C14": ("model_checking", "Custom* sub-actions: recipient set, limit 10240, stamping; Ok_C14 per recipient; bodies are seeded bytes identified by SHA-256.", "5 C14",
          "TLA+ recipient logic + TLC trace validation; sampled bodies"),
- "C08": ("model_checking", "ConnLife.tla: handler.Handle with its three goroutines, the disconnect channel, the scheduler queue, context and wait group; TLC checks DisconnectAtMostOnce, ReturnedMeansDisconnected, NeverStuck and the liveness property HandleReturns for all placements of client frames/closes (and refutes the two unrepaired designs). Wire level (L2): fault class x life point scenarios on the real server over sockets with same-session and other-session witnesses, gauges and goroutine profile; every handler's observed event stream is validated by TLC against ConnLife (ConnTrace, silent steps).", "5 C08",
+ "C08": ("model_checking", "ConnLife.tla: handler.Handle with its three goroutines, the disconnect channel, the scheduler queue, context and wait group; TLC checks DisconnectAtMostOnce, ReturnedMeansDisconnected, NeverStuck and the liveness property HandleReturns for all placements of client frames/closes (and refutes the two unrepaired designs). ConnSend.tla: the send path (bounded sendChan, sender with write deadline and drain, Conn.Close under the write lock, a peer relaying under the participant read lock) for a member that stopped reading, reset in the end or never - the code's design accepted, three earlier designs (findings D19, D20, repaired) refuted on every run. FrameFlow.tla: frame worker, scheduler queue and parked updates (the code's design has a deadlock: open finding D11, replayed on the real server; a direct hand-over design is accepted). Wire level (L2): fault class x life point scenarios on the real server over sockets with same-session and other-session witnesses, gauges and goroutine profile; every handler's observed event stream is validated by TLC against ConnLife (ConnTrace, silent steps).", "5 C08",
          "TLA+ connection-grain model + TLC safety/liveness + wire-level trace validation"),
  "C09": ("model_checking", "(A) real handlers under a cooperative scheduler (every Lock/RLock of the hagall packages is a gate, Go RWMutex semantics incl. waiting writers): all interleavings with bounded preemptions of the catalogue blocks and seeded random schedules of blocks of up to 16 connections - no state with unfinished tasks and none enabled; (B) LockSkeleton.tla: lock programs EXTRACTED from executions of the code under test, TLC explores all interleavings of 3-4 handlers for deadlock; (C) lock-discipline table from the specification as a lead generator; (D) wire-level real-thread stress under the Go race detector (named by the property's own quantifier) decides the unsynchronised-access clause. (E) RelayConc.tla with TLC's deadlock check and NoLockLeft; forced and random schedules on the real handlers must not end in a state with unfinished tasks and none enabled.", "5 C09",
          "TLA+ lock skeleton from extracted lock programs + cooperative-scheduler exploration of the real code + race detector"),
